@@ -136,6 +136,42 @@ def r1_keys(ctx):
     else:
         ctx.bad("C13.R1", dump, dump.node, "Tensor.dump no longer distinguishes "
                 "a rank-0 (Payload) root from a fiber root", text_="Tensor.dump root")
+    # the reader understands what the writer emits: yaml.dump writes Python
+    # tuples (the coordinates of a flattened rank) as `!!python/tuple`, which
+    # yaml.safe_load refuses
+    for cname in ("Tensor", "Fiber"):
+        wr = ctx.method(cname, "dump")
+        rd = ctx.method(cname, "parse")
+        wcalls = [c for c in wr.own_nodes() if isinstance(c, ast.Call)
+                  and text(c.func) in ("yaml.dump", "yaml.safe_dump")]
+        LOADS = ("yaml.safe_load", "yaml.full_load", "yaml.load", "yaml.unsafe_load")
+        rcalls = [c for c in rd.own_nodes() if isinstance(c, ast.Call)
+                  and text(c.func) in LOADS]
+        if not rcalls:
+            # the file may be read by a helper parse() calls
+            for c in rd.own_nodes():
+                if isinstance(c, ast.Call):
+                    tg = ctx.ty.resolve(rd, c)
+                    for h in getattr(tg, "funcs", None) or []:
+                        if h.node is not None and h is not rd:
+                            rcalls += [x for x in h.own_nodes() if isinstance(x, ast.Call)
+                                       and text(x.func) in LOADS]
+        ctx.require(wcalls and rcalls, "C13.R1: yaml writer / reader calls of %s.dump / "
+                    "%s.parse not found" % (cname, cname))
+        full_writer = any(text(c.func) == "yaml.dump" and not any(
+            k.arg == "Dumper" and "Safe" in text(k.value) for k in c.keywords) for c in wcalls)
+        for c in rcalls:
+            safe_reader = text(c.func) == "yaml.safe_load" or any(
+                k.arg == "Loader" and "Safe" in text(k.value) for k in c.keywords)
+            if full_writer and safe_reader:
+                ctx.bad("C13.R1", rd, c, "%s.dump writes with yaml.dump (tuple "
+                        "coordinates become `!!python/tuple`) but %s.parse reads with "
+                        "a safe loader, which rejects that tag: a flattened tensor "
+                        "cannot be loaded back" % (cname, cname),
+                        text_="%s yaml reader matches writer" % cname)
+            else:
+                ctx.ok("C13.R1", rd, c, "reader accepts what the writer emits",
+                       text_="%s yaml reader matches writer" % cname)
     fy = ctx.method("Tensor", "fromYAMLfile")
     okr = False
     rv = None
